@@ -173,7 +173,10 @@ Step ==
         ELSE IF e.site = "abort" THEN
              \* a crash between a restart and the first snapshot taken from the new stream is the old stream's bookkeeping
              \* acting on the matcher (C12; the changelog's 'crash when restarting picker with fast active stream')
-             /\ Report(nrun, {"library_panicked"} \cup (IF nrun.restartSeq > 0 /\ ~nrun.updatedSince THEN {"library_crashed_before_first_snapshot_of_new_stream"} ELSE {}), e)
+             /\ Report(nrun, {"library_panicked"} \cup (IF nrun.restartSeq > 0 /\ ~nrun.updatedSince THEN {"library_crashed_before_first_snapshot_of_new_stream"} ELSE {})
+                              \* the UI thread died inside an observation (dump = snapshot accessors + active_injectors())
+                              \cup (IF e.role = "main" /\ e.tid \in DOMAIN nrun.obsSeq /\ nrun.obsSeq[e.tid] > nrun.lastDump.seq
+                                    THEN {"panic_while_reading_snapshot_or_handle_count"} ELSE {}), e)
              /\ nrun' = [nrun EXCEPT !.aborted = TRUE]
              /\ nstat' = [nstat EXCEPT !.events = @ + 1, !.fails = @ + 1, !.aborted = @ + 1]
         ELSE IF e.site = "notify" THEN
